@@ -875,6 +875,26 @@ class Gen:
         p = n if params == 'same' else params
         return {'params': p, 'clauses': clauses}
 
+    def mkdef_rec(self, name, n):
+        """round 5/6: a directly RECURSIVE compiled definition (n >= 1): a ladder over the atoms a -> b -> c on the first argument,
+             name(A0,..) :- A0 = x, L = y, name(L,..).    ...    name(A0,..) :- A0 = last.
+        Its own recursive calls are calls like any other: they see the facts asserted for name/n, every definition chained onto
+        the key and whatever the key means when the call starts - so its answers change with the history of the key."""
+        rng = self.rng
+        self.ndefs += 1
+        chain = rng.choice([['a', 'b'], ['a', 'b', 'c'], ['b', 'c'], ['a', 'c'], ['c', 'a', 'b']])
+        clauses = []
+        for x, y in zip(chain, chain[1:]):
+            goals = [['u', 0, x], ['u', n, y], ['c', name, [n] + list(range(1, n))]]
+            if rng.random() < 0.2:
+                goals.insert(rng.choice([2, 3]), ['cut'])
+            clauses.append({'nlocals': 1, 'goals': goals})
+        base = [['u', 0, chain[-1]]]
+        if n > 1 and rng.random() < 0.5:
+            base.append(['u', 1, 'm%d_b' % self.ndefs])
+        clauses.insert(rng.choice([0, len(clauses), len(clauses)]), {'nlocals': 0, 'goals': base})
+        return {'params': n, 'clauses': clauses}
+
     def name_ar(self):
         name = self.rng.choice(self.names)
         return name, self.rng.choice(self.arities[name])
@@ -988,7 +1008,7 @@ class Gen:
         nops = rng.choice([4, 6, 8, 8, 10, 12, 16])
         # scenario seeds
         sc = rng.random()
-        if sc < 0.3:
+        if sc < 0.25:
             # several combined loads of one key, then maybe overwrite
             key = self.name_ar()
             for _ in range(rng.choice([2, 3, 3, 4])):
@@ -998,7 +1018,7 @@ class Gen:
                     ops.append(self.op_assert())
             if rng.random() < 0.6:
                 ops.append(self.op_load(keys=[key], overwrite=True, fail=False))
-        elif sc < 0.45:
+        elif sc < 0.38:
             # exact and variadic for one name
             name, n = self.name_ar()
             a = [self.op_reg(name, n, 'variadic'), self.op_reg(name, n, rng.choice(['infer', 'explicit']))]
@@ -1006,7 +1026,7 @@ class Gen:
                 a.append(self.op_load(keys=[(name, n)], overwrite=rng.random() < 0.5, fail=False))
             rng.shuffle(a)
             ops += a
-        elif sc < 0.6:
+        elif sc < 0.5:
             # suspended query across a change of its definitions
             name, n = self.name_ar()
             for _ in range(rng.choice([0, 1, 1, 2, 3])):
@@ -1030,7 +1050,38 @@ class Gen:
                     ops.append(['clear'])
             for _ in range(rng.choice([1, 2, 3])):
                 ops.append(['next', i])
-        elif sc < 0.75:
+        elif sc < 0.7 and any(a >= 1 for n_ in self.names if n_ not in RES_NAMES for a in self.arities[n_]):
+            # a directly recursive compiled definition whose key also gets facts and further (chained / overwriting) definitions: its
+            # recursive calls must see all of them, at the moment each call starts
+            name = rng.choice([n_ for n_ in self.names if n_ not in RES_NAMES and any(a >= 1 for a in self.arities[n_])])
+            n = rng.choice([a for a in self.arities[name] if a >= 1])
+            def rec_load(ow):
+                return ['load', {'stmts': [['def', name, n, self.mkdef_rec(name, n)]], 'broken': False}, ow]
+            pre = []
+            for _ in range(rng.choice([0, 1, 2])):
+                pre.append(['assert', name, [rng.choice(ATOMS) for _ in range(n)], rng.random() < 0.7])
+            if rng.random() < 0.4:
+                pre.append(self.op_load(keys=[(name, n)], overwrite=False, fail=False, extras=0))
+            ops += pre
+            ops.append(rec_load(rng.random() < 0.4))
+            for _ in range(rng.choice([1, 2, 3])):
+                r = rng.random()
+                if r < 0.5:
+                    ops.append(['assert', name, [rng.choice(ATOMS) for _ in range(n)], rng.random() < 0.7])
+                elif r < 0.75:
+                    ops.append(self.op_load(keys=[(name, n)], overwrite=False, fail=False, extras=0))
+                elif r < 0.9:
+                    ops.append(rec_load(False))
+                else:
+                    ops.append(self.op_reg(name, n, rng.choice(['infer', 'explicit'])))
+            if rng.random() < 0.5:
+                ops.append(['start', name, n])
+                i = self.nsusp
+                self.nsusp += 1
+                ops.append(['next', i])
+                ops.append(['assert', name, [rng.choice(ATOMS) for _ in range(n)], True])
+                ops += [['next', i]] * rng.choice([1, 2, 3])
+        elif sc < 0.8:
             # a hand-written module (predicates with constants / None / deletions between them) is loaded over
             # existing definitions, then a correct script for one of its keys
             keys = [self.name_ar() for _ in range(rng.choice([2, 2, 3]))]
